@@ -19,6 +19,10 @@ func init() {
 			{"R5.3", "replay applies TGs in commit order (last acknowledged value wins)", ruleReplaySorted},
 			{"R2.2", "only checksum-validated TG bytes are replayed", ruleChecksumGate},
 			{"R35.4", "checkpoint records prune replay by id order", ruleCheckpointPrunesReplay},
+			{"R3.1", "variable-length primary write: data appended before the index record moves", ruleIndirectAppendOnly},
+			{"R34.1", "a WAL file is deleted only when no replay is needed (incl. interrupted replays)", ruleDeleteGuarded},
+			{"R2.1", "replayed TG is checkpointed before replay reports success", ruleReplayCheckpointed},
+			{"R4.3", "the WAL is truncated only behind a successful checkpoint", ruleTruncateBehindCheckpoint},
 		},
 	})
 }
@@ -39,6 +43,9 @@ func init() {
 			{"R4.4", "status header is written, synced, and the offset restored", ruleWriteStatus},
 			{"R2.1", "replayed TG is checkpointed", ruleReplayCheckpointed},
 			{"R35.4", "checkpoint records prune replay by id order", ruleCheckpointPrunesReplay},
+			{"R34.1", "a WAL file is deleted only when no replay is needed (incl. interrupted replays)", ruleDeleteGuarded},
+			{"R3.1", "variable-length primary write: data appended before the index record moves", ruleIndirectAppendOnly},
+			{"R5.3", "replay in commit order", ruleReplaySorted},
 		},
 	})
 	register(&Property{
@@ -55,6 +62,8 @@ func init() {
 			{"R4.3", "truncate only behind a successful checkpoint", ruleTruncateBehindCheckpoint},
 			{"R35.4", "checkpoint records prune replay by id order", ruleCheckpointPrunesReplay},
 			{"R4.2", "checkpoint brackets the global sync", ruleCheckpointBrackets},
+			{"R34.1", "a WAL file is deleted only when no replay is needed (incl. interrupted replays)", ruleDeleteGuarded},
+			{"R2.1", "replayed TG is checkpointed", ruleReplayCheckpointed},
 		},
 	})
 	register(&Property{
@@ -84,6 +93,7 @@ func init() {
 			{"R34.2", "cleanup loop guards (header-only removal, own file skipped, move-aside policy)", ruleCleanupGuards},
 			{"R34.4", "replay brackets its work with status records", ruleReplayBrackets},
 			{"R34.8", "ReplayError is recognised through error wrapping", ruleReplayErrorUnwrapped},
+			{"R34.9", "no checkpoint after a failed replay write", ruleNoCheckpointAfterFailedReplayWrite},
 			{"R2.1", "replayed TG is checkpointed", ruleReplayCheckpointed},
 			{"R35.4", "checkpoint records (COMMITCOMPLETE only) prune replay by id order", ruleCheckpointPrunesReplay},
 			{"R34.7", "no file mutation outside the owning gates", ruleNoForeignWriter("R34.7")},
@@ -99,6 +109,8 @@ func init() {
 			{"R35.2", "Shutdown waits for the drain", ruleShutdownWaits},
 			{"R35.3", "exit only after Shutdown", ruleExitAfterShutdown},
 			{"R35.4", "checkpoint records prune replay", ruleCheckpointPrunesReplay},
+			{"R4.2", "a checkpoint candidate is forgotten only after its COMMITCOMPLETE marker was written (the final checkpoint at shutdown relies on it)", ruleCheckpointBrackets},
+			{"R34.9", "no checkpoint after a failed replay write", ruleNoCheckpointAfterFailedReplayWrite},
 		},
 	})
 	register(&Property{
@@ -111,6 +123,9 @@ func init() {
 			{"R2.2", "checksum gate", ruleChecksumGate},
 			{"R35.4", "checkpoint records prune replay", ruleCheckpointPrunesReplay},
 			{"R2.3", "no phantom writer", ruleNoForeignWriter("R2.3")},
+			{"R34.9", "no checkpoint after a failed replay write", ruleNoCheckpointAfterFailedReplayWrite},
+			{"R34.1", "replay state gate: replayed files are not replayed again, unfinished ones are", ruleDeleteGuarded},
+			{"R5.3", "replay in commit order", ruleReplaySorted},
 		},
 	})
 }
@@ -142,6 +157,8 @@ func init() {
 			{"R6.3", "scan loop progress", ruleReplayLoopProgress},
 			{"R6.4", "no explicit panic below Replay", ruleNoPanicUnderReplay},
 			{"R6.5", "bytes returned by the WAL reader are used only after its error was tested", ruleReadResultAfterErrCheck},
+			{"R35.4", "only a COMPLETE checkpoint record prunes transaction groups (a torn checkpoint must not hide intact ones)", ruleCheckpointPrunesReplay},
+			{"R5.3", "intact TGs are applied in commit order", ruleReplaySorted},
 		},
 	})
 }
